@@ -113,6 +113,11 @@ class PyDriver:
             return 'ok %d %d %d %d %d' % (a.k, int(i), int(j), a.flips[0], a.flips[1])
         if op == 'ij2s':
             return 'ok %d' % self.hb.ij_to_s((bits2f(t[1]), bits2f(t[2])), int(t[3]), t[4])
+        if op == 'auth':
+            from a5.projections.authalic import AuthalicProjection
+            A = AuthalicProjection()
+            x = bits2f(t[2])
+            return 'ok %d' % fbits(A.forward(x) if t[1] == 'fwd' else A.inverse(x))
         if op == 'q2kj':
             k, j = self.hb.quaternary_to_kj(int(t[1]), (int(t[2]), int(t[3])))
             return 'ok %d %d' % (k, j)
